@@ -60,10 +60,11 @@ class Reverter(object):
             setattr(self.version_parent, prop.key, [])
             for child_obj in getattr(self.obj, prop.key):
                 value = self.revert_child(child_obj, prop)
-                if value:
-                    getattr(self.version_parent, prop.key).append(
-                        value
-                    )
+                collection = getattr(self.version_parent, prop.key)
+                # a path leading back here ('tags.articles') may have
+                # linked the two objects from the other side already
+                if value and value not in collection:
+                    collection.append(value)
         else:
             setattr(self.version_parent, prop.key, None)
             value = getattr(self.obj, prop.key)
@@ -111,8 +112,39 @@ class Reverter(object):
 
                 self.revert_relationship(prop)
 
+    def is_visited(self):
+        """
+        Return whether or not this version object or another version of the
+        same parent object has been reverted within this revert call. A
+        relation path that leads back to an already reverted object
+        ('tags.article') must not revert it once more to whatever version
+        the path happens to end at.
+        """
+        mapper = sa.inspect(self.obj.__class__)
+        tx_column = option(self.obj, 'transaction_column_name')
+        keys = [
+            mapper.get_property_by_column(column).key
+            for column in mapper.primary_key
+            if column.key != tx_column
+        ]
+        for visited in self.visited_objects:
+            if visited is self.obj:
+                return True
+            if (
+                (
+                    isinstance(visited, self.obj.__class__) or
+                    isinstance(self.obj, visited.__class__)
+                ) and
+                all(
+                    getattr(visited, key) == getattr(self.obj, key)
+                    for key in keys
+                )
+            ):
+                return True
+        return False
+
     def __call__(self):
-        if self.obj in self.visited_objects:
+        if self.is_visited():
             return (
                 None if self.operation_type == Operation.DELETE
                 else self.version_parent
